@@ -55,40 +55,43 @@ Proof. exact never_wedged_pending. Qed.
 
 (* ... and on EVERY schedule (Proofs/SysCoop.v). Take ANY history from ANY start image that is cooperative: every HTLC belongs to one
    consistent acceptable set (same invoice [B] and amount [Dl], enough relative expiry, a declared total covering amount and
-   fee), no RPC fault is injected, the pay command ends only `complete`, and the clock does not advance — crashes at any point,
+   fee), no RPC fault is injected, the pay command ends only `complete`, and the whole history ends by a time [T] that is less
+   than one MPP timeout after its start and after the date of an interrupted attempt in the image (time passes: [EvTick] events
+   are part of the history; a set that takes longer than the MPP timeout to complete is RIGHTLY failed, C11) — crashes at any point,
    any interleaving of the node's answers, deliveries, polls, part resolutions (failing or completing) and HTLC arrivals, any
-   number of lifecycles and retries included. If the attempt ids handed out from [a0] on are unused and an interrupted attempt
-   in the image is younger than the MPP timeout, then NO step of the history fails any HTLC: the recovering lifecycle's
+   number of lifecycles and retries included. If the attempt ids handed out from [a0] on are unused, then NO step of the history fails any HTLC: the recovering lifecycle's
    generation-guarded Free write is never refused (nobody else writes the record unless a part completed), the new attempt's
    must-create write is never refused, the remaining MPP time is never zero. With C06 (a run that brings progress is finite and
    can end only when no HTLC is held; answers go to all held HTLCs at once) every such run that has nothing left to do has
    answered every HTLC it was given, and never with a failure: no start image makes the hash permanently failing, whatever
    the schedule. What stays a hypothesis is the environment's cooperation itself. *)
-Theorem C09_cooperative_runs_never_fail : forall c B Dl n t0 h0 a0 evs,
+Theorem C09_cooperative_runs_never_fail : forall c B Dl T n t0 h0 a0 evs,
   mpp_ms c <> 0 -> node_ok n ->
   (forall a, mem_att a (atts n) = true -> a < a0) ->
-  (forall a t g, ds n = Some (DPending a t, g) -> a < a0 /\ t0 - t < mpp_ms c) ->
-  hist_wf true c (sys_start n t0 h0 a0) evs -> Forall (ev_coop c B Dl) evs ->
+  (forall a t g, ds n = Some (DPending a t, g) -> a < a0 /\ T - t < mpp_ms c) ->
+  t0 <= T -> T - t0 < mpp_ms c ->
+  hist_wf true c (sys_start n t0 h0 a0) evs -> hist_coop c B Dl T (sys_start n t0 h0 a0) evs ->
   forall o h m, In o (snd (run c (sys_start n t0 h0 a0) evs)) -> ~ In (OResp h (Fail m)) o.
-Proof. intros c B Dl n t0 h0 a0 evs Hm. exact (coop_runs_never_fail c B Dl Hm n t0 h0 a0 evs). Qed.
+Proof. intros c B Dl T n t0 h0 a0 evs Hm. exact (coop_runs_never_fail c B Dl T Hm n t0 h0 a0 evs). Qed.
 
 (* ... and the composition: a cooperative history in which the HTLC [h] arrives (after [pre]) and no crash follows it, and which
    has NOTHING LEFT TO DO at its end (no contract-respecting progress event changes the state any more: C06's notion of rest), has
    written a response for [h], and that response settles it. No schedule, fairness or bound is assumed: the history IS the
    schedule. (An HTLC followed by a crash is replayed by the node: a new arrival, to which the same theorem applies.) *)
-Theorem C09_cooperative_run_at_rest_has_settled_everything : forall c B Dl n t0 h0 a0 pre h post,
+Theorem C09_cooperative_run_at_rest_has_settled_everything : forall c B Dl T n t0 h0 a0 pre h post,
   mpp_ms c <> 0 -> node_ok n ->
   (forall a, mem_att a (atts n) = true -> a < a0) ->
-  (forall a t g, ds n = Some (DPending a t, g) -> a < a0 /\ t0 - t < mpp_ms c) ->
+  (forall a t g, ds n = Some (DPending a t, g) -> a < a0 /\ T - t < mpp_ms c) ->
+  t0 <= T -> T - t0 < mpp_ms c ->
   let evs := pre ++ EvHtlc h :: post in
-  hist_wf true c (sys_start n t0 h0 a0) evs -> Forall (ev_coop c B Dl) evs -> ~ In EvCrash post ->
+  hist_wf true c (sys_start n t0 h0 a0) evs -> hist_coop c B Dl T (sys_start n t0 h0 a0) evs -> ~ In EvCrash post ->
   let s := after c n t0 h0 a0 evs in
   (forall ev, progress_ev s ev = true -> ev_wf true s ev -> ~ seffective c s ev) ->
   exists o pr, In o (snd (run c (sys_start n t0 h0 a0) evs)) /\ In (OResp (hid h) (Resolve pr)) o.
 Proof.
-  intros c B Dl n t0 h0 a0 pre h post Hm Hn Ha Hd evs Hwf Hco Hnc s Hrest.
+  intros c B Dl T n t0 h0 a0 pre h post Hm Hn Ha Hd Ht1 Ht2 evs Hwf Hco Hnc s Hrest.
   assert (He : entry_ (pl s) = None) by exact (at_rest_means_all_answered c s (after_wreach true c n t0 h0 a0 evs Hn Hwf) Hrest).
-  pose proof (coop_runs_only_settle c B Dl Hm n t0 h0 a0 evs Hn Ha Hd Hwf Hco) as Hset.
+  pose proof (coop_runs_only_settle c B Dl T Hm n t0 h0 a0 evs Hn Ha Hd Ht1 Ht2 Hwf Hco) as Hset.
   unfold s, after in He. unfold evs in He, Hset |- *. rewrite run_app in He, Hset |- *.
   destruct (run c (sys_start n t0 h0 a0) pre) as [s1 o1].
   pose proof (run_account c (EvHtlc h :: post) s1 h (or_intror (or_introl eq_refl))) as Hacc.
@@ -102,12 +105,12 @@ Proof.
 Qed.
 
 (* one cooperative step: the invariant K is kept and nobody is failed, from every state reachable under the contract *)
-Theorem C09_cooperative_step : forall c B Dl s ev,
-  mpp_ms c <> 0 -> wreach true c s -> K c B Dl s -> ev_coop c B Dl ev ->
-  K c B Dl (fst (step c s ev)) /\ forall h m, ~ In (OResp h (Fail m)) (snd (step c s ev)).
+Theorem C09_cooperative_step : forall c B Dl T s ev,
+  mpp_ms c <> 0 -> wreach true c s -> K c B Dl T s -> ev_coop c B Dl T s ev ->
+  K c B Dl T (fst (step c s ev)) /\ forall h m, ~ In (OResp h (Fail m)) (snd (step c s ev)).
 Proof.
-  intros c B Dl s ev Hm Hw HK Hev. split; [exact (K_step c B Dl Hm s ev Hw HK Hev)|].
-  intros h m. exact (coop_step_never_fails c B Dl Hm s ev h m Hw HK Hev).
+  intros c B Dl T s ev Hm Hw HK Hev. split; [exact (K_step c B Dl T Hm s ev Hw HK Hev)|].
+  intros h m. exact (coop_step_never_fails c B Dl T Hm s ev h m Hw HK Hev).
 Qed.
 
 (* non-vacuity: the D4 image (Pending, no attempt record) with the schedule of C09_D4_image_recovers is such a history *)
@@ -116,12 +119,12 @@ Example C09_cooperative_nonvacuous :
   let h := {| hid := 7; blob := [1]; deliver := 10; inv_amount := Some 10; amt := 10; total := 10; expiry := 1000; rel := 100%Z |} in
   let n := {| ds := Some (DPending 3 1000, 0); atts := []; parts := []; payrun := 0 |} in
   let evs := recover_schedule h ++ pay_schedule_from 5 0 [9] in
-  hist_wf true c (sys_start n 2000 0 4) evs /\ Forall (ev_coop c [1] 10) evs /\
+  hist_wf true c (sys_start n 2000 0 4) evs /\ hist_coop c [1] 10 2000 (sys_start n 2000 0 4) evs /\
   (forall a t g, ds n = Some (DPending a t, g) -> a < 4 /\ 2000 - t < mpp_ms c).
 Proof.
   split; [|split].
   - vm_compute. repeat split; auto.
-  - repeat (constructor; [vm_compute; auto; try (eexists; reflexivity)|]). constructor.
+  - vm_compute. repeat split; auto; try (eexists; reflexivity).
   - intros a t g H. inversion H; subst. vm_compute. split; reflexivity.
 Qed.
 
@@ -131,15 +134,15 @@ Example C09_cooperative_at_rest_nonvacuous :
   let c := {| mpp_ms := 60000; pol := {| fee_base := 0; fee_ppm := 0; pol_delta := 40 |}; cltv_delta := 6; retry_for := 60 |} in
   let h := {| hid := 7; blob := [1]; deliver := 10; inv_amount := Some 10; amt := 10; total := 10; expiry := 1000; rel := 100%Z |} in
   let n := {| ds := Some (DPending 3 1000, 0); atts := []; parts := []; payrun := 0 |} in
-  let post := tl (recover_schedule h) ++ pay_schedule_from 5 0 [9] ++ [EvProcess 8 NoFault; EvDeliver 8 true; EvProcess 9 NoFault; EvDeliver 9 true] in
+  let post := EvTick 500 :: tl (recover_schedule h) ++ EvTick 400 :: pay_schedule_from 5 0 [9] ++ [EvProcess 8 NoFault; EvDeliver 8 true; EvProcess 9 NoFault; EvDeliver 9 true] in
   let evs := [] ++ EvHtlc h :: post in
-  hist_wf true c (sys_start n 2000 0 4) evs /\ Forall (ev_coop c [1] 10) evs /\ ~ In EvCrash post /\
+  hist_wf true c (sys_start n 2000 0 4) evs /\ hist_coop c [1] 10 3000 (sys_start n 2000 0 4) evs /\ ~ In EvCrash post /\
   (forall ev, progress_ev (after c n 2000 0 4 evs) ev = true -> ev_wf true (after c n 2000 0 4 evs) ev -> ~ seffective c (after c n 2000 0 4 evs) ev) /\
   ds (nd (after c n 2000 0 4 evs)) = Some (DSucc [9], 3).
 Proof.
   cbv zeta. split; [|split; [|split; [|split]]].
   - vm_compute. repeat split; auto.
-  - repeat (constructor; [vm_compute; auto; try (eexists; reflexivity)|]). constructor.
+  - vm_compute. repeat split; auto; try (eexists; reflexivity); try discriminate.
   - vm_compute. intros H. repeat (destruct H as [H|H]; [discriminate|]). exact H.
   - match goal with |- forall ev, progress_ev ?s0 ev = true -> _ => remember s0 as sF eqn:HsF end.
     vm_compute in HsF. subst sF. intros ev Hp _ Hne. apply Hne. clear Hne.
